@@ -221,4 +221,15 @@ theorem length_repeatN {α : Type} (n : Nat) (l : List α) : (Np.repeatN n l).le
     simp only [List.flatMap_cons, List.length_append, List.length_replicate, List.length_cons, ih]
     ring
 
+theorem foldl_max_ge (ms : List Nat) (m : Nat) : m ≤ ms.foldl max m ∧ ∀ x ∈ ms, x ≤ ms.foldl max m := by
+  induction ms generalizing m with
+  | nil => simp
+  | cons a t ih =>
+    obtain ⟨h1, h2⟩ := ih (max m a)
+    simp only [List.foldl_cons, List.mem_cons]
+    refine ⟨le_trans (le_max_left m a) h1, ?_⟩
+    rintro x (rfl | hx)
+    · exact le_trans (le_max_right m x) h1
+    · exact h2 x hx
+
 end XConfig
